@@ -210,11 +210,11 @@ def make_pairs(ctx, ck, rules, text, L, nsample, Lall, tag, reuse=False):
 
 
 def stage_c(ctx, procs):
-    n = ctx.pick(40, 500)
+    n = ctx.pick(34, 500)
     L = ctx.pick(3, 4)
     Lall = 2
-    nsample = ctx.pick(500, 5000)
-    gen = K.Gen(ctx.rng, signing=0.85, p_forward=0.2, p_redef=0.3, p_twin=0.6, force_twin=0.6, carried=0.5, dual=0.5)
+    nsample = ctx.pick(300, 5000)
+    gen = K.Gen(ctx.rng, signing=0.85, p_forward=0.2, p_redef=0.3, p_twin=0.6, force_twin=0.6, carried=0.5, dual=0.6)
     recs, rejected, sid, nyes = [], 0, 0, 0
     while len(recs) < n and sid < 4 * n:
         sid += 1
